@@ -923,6 +923,9 @@ func (vc *VC) callAsserts(fr *Frame, st *State, c *ssa.CallCommon, args []Term, 
 	} else if prm, ok := c.Value.(*ssa.Parameter); ok {
 		// a call through a function-typed parameter is addressed by the parameter's name
 		name = prm.Name()
+	} else if key, _, ok := vc.funcFieldKey(c.Value); ok {
+		// a call through a function-typed struct field is addressed by the field's name
+		name = key[strings.LastIndex(key, ".")+1:]
 	} else {
 		return
 	}
